@@ -645,9 +645,26 @@ pub struct CheckerScenario;
 
 fn tuning(tier: Tier) -> W1Tuning {
     let mut allowed = gen::problem::Features::all();
+    // required breaks, clustering: the reference oracle does not replay the times of such tours, so it cannot say whether
+    // a rejection by the checker is wrong; time-dependent routing: the checker says itself that it is not implemented
     allowed.req_breaks = false;
-    allowed.relations = false;
+    // user relations in the solved problem (derived from a first solve, see relgen): the solver's answer to a problem with
+    // relations is checked against those relations by the checker as well
+    allowed.relations = true;
     allowed.unreachable_random = false;
+    // experiment switch (triage only): further features for the positives
+    if let Ok(extra) = std::env::var("VSIM_C12_EXTRA") {
+        for f in extra.split(',') {
+            match f {
+                "relations" => allowed.relations = true,
+                "req_breaks" => allowed.req_breaks = true,
+                "clustering" => allowed.clustering = true,
+                "recharges" => allowed.recharges = true,
+                "time_dependent" => allowed.time_dependent = true,
+                _ => {}
+            }
+        }
+    }
     match tier {
         Tier::Quick => W1Tuning { max_jobs: 9, max_generations: 8, allowed },
         Tier::Thorough => W1Tuning { max_jobs: 20, max_generations: 40, allowed },
